@@ -362,10 +362,22 @@ Print Assumptions C11_history_independent_wbr.
     allocating function outside the module, or produced by a listed module function;
     none is pooled storage, a parameter, or unclassified; and every API root is listed *)
 Theorem C11_returned_values_fresh :
-  returned_values_fresh_b WebpGen.Owner.owner_sites = true /\
+  returned_values_fresh_b (codec_sites WebpGen.Owner.owner_sites) = true /\
   forallb (fun r => existsb (fun q => String.eqb (fst q) r) WebpGen.Owner.owner_sites) api_return_roots = true.
 Proof. exact returned_values_fresh. Qed.
 Print Assumptions C11_returned_values_fresh.
+
+(** no exported function or method of the public packages (webp, animation, mux, sharpyuv)
+    returns memory that aliases a package-level variable or pooled storage: library state
+    cannot be reached - hence not mutated - through a value the API hands out (every such
+    function is in the regenerated list; sharpyuv.GetConversionMatrix returns a copy) *)
+Theorem C11_api_returns_no_global_state :
+  forallb (fun p => api_origin_ok (snd p)) WebpGen.Owner.owner_sites = true /\
+  forallb (fun r => existsb (fun q => String.prefix r (fst q)) WebpGen.Owner.owner_sites)
+          WebpGen.Owner.api_reference_returning = true /\
+  mem "sharpyuv.GetConversionMatrix" WebpGen.Owner.api_reference_returning = true.
+Proof. exact api_returns_no_global_state. Qed.
+Print Assumptions C11_api_returns_no_global_state.
 
 (** * global tables: every write to a package-level variable of the module happens in an
     init function, inside (sync.Once).Do, or in a function reachable only from those;
